@@ -172,6 +172,19 @@ def empty_messages(a):
 
 
 @edit
+def file_named_like_rpc(a):
+    """A target file whose base name is the snake-case name of an RPC of the service (showcase's echo.proto / rpc Echo), with
+    RPCs declared after it that use types of that file as request and as response."""
+    f = file('acme/lib/v1/echo.proto', P, messages=[
+        message('EchoRequest', [field('text', 1, 'string')]), message('EchoResponse', [field('text', 1, 'string')]),
+        message('ExpandRequest', [field('text', 1, 'string')]), message('CollectResponse', [field('n', 1, 'int32')])])
+    a.add_file_before(f)
+    a.rpc(method('Echo', Q('EchoRequest'), Q('EchoResponse'), http=('post', '/v1/echo:echo', '*')),
+          method('Expand', Q('ExpandRequest'), Q('EchoResponse'), ss=True, http=('post', '/v1/echo:expand', '*')),
+          method('Collect', Q('EchoRequest'), Q('CollectResponse'), http=('post', '/v1/echo:collect', '*')))
+
+
+@edit
 def wkt_fields(a):
     a.msg(message('Wkt', [
         field('d', 1, '.google.protobuf.Duration'), field('s', 2, '.google.protobuf.Struct'),
